@@ -225,6 +225,8 @@ def gen_op(rng, ctxs, vals, allow_reenter):
         return {"op": "probe", "ctx": c, "probe": rng.randrange(len(PROBES))}
     if r < 0.44:
         return {"op": "regex_reuse", "ctx": c, "stall": rng.choice((0.0, 0.5, 3.0))}
+    if r < 0.50:
+        return {"op": "strmatch", "ctx": c, "stall": rng.choice((0.0, 3.0)), "pat": rng.randrange(2)}
     effects = [gen_effect(rng, vals) for _ in range(rng.randrange(1, 5))]
     pool = list(OTHER_TERMINALS)
     if cfg["T_work"]:
@@ -364,6 +366,19 @@ class Sim:
             b = (tw["kind"], tw.get("value") if tw["kind"] == "value" else tw.get("cls"))
             if a != b:
                 self.bad("C12.leak", "RegExp objects defined by an earlier eval: context %d gives %r, its fault-free twin %r (the time budget of an earlier eval carried over?)" % (c, a, b), step)
+            return
+        if kind == "strmatch":
+            # a pattern given as a STRING to match/search: compiled per call, so no evaluation's
+            # deadline may travel with it to a later eval or to another context
+            if cfg["T_work"]:
+                W.S.mono_off += op["stall"] * cfg["T_work"] * W.S.tick
+            pat = ("(a|b)*c", "(ab)*c|x")[op["pat"]]
+            subj = json.dumps("ab" * 150 + "c")
+            src = "[%s.match(%s)[0].length, %s.search(%s)]" % (subj, json.dumps(pat), subj, json.dumps(pat))
+            out = run_eval(ctx, src, cap)
+            if not (out["kind"] == "value" and out["value"] == [301, 0]):
+                self.bad("C12.leak", "string-pattern match/search on context %d ended in %s %s %r (another evaluation's state travelled with the pattern?)" % (
+                    c, out["kind"], out.get("cls"), out.get("value")), step)
             return
         if kind == "probe":
             src, exp = PROBES[op["probe"]]
